@@ -136,8 +136,29 @@ def _ival(n, env, lets, depth=0):
             return v
     if k == "lit" and "int" in n["v"]:
         return n["v"]["int"]
+    if k == "path" and "def" in n["res"] and re.search(r"::(MAX|MIN|BITS)$", n["res"]["def"]) and env.get("__ty__") is not None:
+        nm = env["__ty__"](n.get("t")) or ""
+        m_ = re.fullmatch(r"([ui])(8|16|32|64|size)", nm)
+        if m_:
+            bits = 64 if m_.group(2) == "size" else int(m_.group(2))
+            what = n["res"]["def"].rsplit("::", 1)[1]
+            if what == "BITS":
+                return bits
+            if m_.group(1) == "u":
+                return (1 << bits) - 1 if what == "MAX" else 0
+            return (1 << (bits - 1)) - 1 if what == "MAX" else -(1 << (bits - 1))
     if k == "cast" or k == "try":
-        return _ival(n["e"], env, lets, depth + 1)
+        v = _ival(n["e"], env, lets, depth + 1)
+        tyf = env.get("__ty__")
+        if k == "cast" and tyf is not None:
+            # `as` to a narrower integer truncates (two's complement for the signed ones)
+            nm = tyf(n.get("t")) or ""
+            bits = {"u8": 8, "u16": 16, "u32": 32, "u64": 64, "usize": 64, "i8": 8, "i16": 16, "i32": 32, "i64": 64, "isize": 64}.get(nm)
+            if bits:
+                v &= (1 << bits) - 1
+                if nm.startswith("i") and v >= 1 << (bits - 1):
+                    v -= 1 << bits
+        return v
     if k == "mcall" and n["m"] in ("ok_or_else", "ok_or", "unwrap", "expect", "unwrap_or_default", "into", "try_into") and hirq.strip(n["recv"]).get("k") in ("mcall", "try", "call", "path", "cast"):
         # `a.checked_sub(b).ok_or_else(..)?` is `a - b` on the path that continues
         return _ival(n["recv"], env, lets, depth + 1)
